@@ -135,12 +135,30 @@ def run(chk):
             files.append("file ch%d_%d.yar %s" % (d, d, hx(last.encode())))
             extra[len(muts)] = files
             muts.append(("include-chain", 'include "ch%d_1.yar"\nrule top { condition: true }' % d))
+    # includes resolved by the DEFAULT include callback relative to the directory of the including file (real files on disk): the
+    # directory prefix and the include path are joined in a fixed buffer of the lexer
+    disk = {}
+    for dlen in (1, 12, 200, 1000):
+        for ilen in (5, 1000, 1010, 1022, 1023, 1024, 1030, 2000, 8000):
+            if dlen + ilen < 900 and (dlen, ilen) != (1, 5):
+                continue
+            d = "d" * dlen
+            inc = "i" * ilen
+            disk[len(muts)] = ["diskdir", "diskfile %s/x.yar %s" % (d, hx(('include "%s"\nrule top { condition: true }' % inc).encode())),
+                               "diskfile %s/ok.yar %s" % (d, hx(b"rule inc { condition: true }"))] + \
+                              (["diskfile %s/%s %s" % (d, inc, hx(b"rule inc2 { condition: true }"))] if ilen <= 200 else [])
+            muts.append(("include-disk", "%s/x.yar" % d))
     chain_expect = {}
     for i, (kind, src) in enumerate(muts):
         b = src if isinstance(src, bytes) else src.encode()
         if kind == "include-chain":
             d = int(re.search(r"ch(\d+)_1", src).group(1))
             chain_expect["m%d" % i] = d
+        if i in disk:
+            cases.append(("m%d" % i, disk[i] + ["newcompiler2", "addfile " + src, "force diskclean",
+                                                  "force destroycompiler", "force newcompiler2", "force add " + hx(good.encode()), "force getrules2",
+                                                  "force scanner 0", "force scan " + hx(b"xx needle yy"), "force sdestroy", "force destroyrules", "force destroycompiler"]))
+            continue
         cases.append(("m%d" % i, extra.get(i, []) + ["file inc.yar " + hx(b'rule inc_rule { condition: true }'), "file self.yar " + hx(b'include "self.yar"'),
                                   "newcompiler", "defi ext_i 1", "defs ext_s " + hx(b"abc"), "add " + hx(b),
                                   "force destroycompiler", "force newcompiler2", "force add " + hx(good.encode()), "force getrules2",
